@@ -201,7 +201,7 @@ __CPROVER_loop_invariant(GHOST_MATCH
 __CPROVER_decreases((SCL->n - Citer.pos) + (SXR->n - CXiter.pos))
 //@end
 
-//@harness h_GF_prepare enforce=GreensFunction_prepare props=C01,C19 min_obl=2000 timeout=600 reach=4
+//@harness h_GF_prepare enforce=GreensFunction_prepare props=C01,C19 min_obl=2299 timeout=300 reach=4
 void h_GF_prepare(void)
 {
   struct GreensFunction *gf;
@@ -259,7 +259,7 @@ __CPROVER_loop_invariant(g_computes == ((0 <= self->parts.gidx && self->parts.gi
 __CPROVER_decreases((long)self->parts.n - iter.pos)
 //@end
 
-//@harness h_GF_compute enforce=GreensFunction_compute replace=GreensFunction_prepare props=C01 min_obl=500 timeout=600 reach=5
+//@harness h_GF_compute enforce=GreensFunction_compute replace=GreensFunction_prepare props=C01 min_obl=1081 timeout=120 reach=5
 void h_GF_compute(void)
 {
   struct GreensFunction *gf;
@@ -368,13 +368,13 @@ __CPROVER_assigns(EVAL_FRAME)
 __CPROVER_ensures(EVAL_POST(self))
 //@end
 
-//@harness h_GF_call_z enforce=GreensFunction_call_z props=C01 min_obl=300 timeout=300 reach=3
+//@harness h_GF_call_z enforce=GreensFunction_call_z props=C01 min_obl=393 timeout=120 reach=3
 void h_GF_call_z(void) { struct GreensFunction *gf; cplx z; GreensFunction_call_z(gf, z); if (g_last_eval == -1) REACH("exit_none"); else REACH("exit_some"); }
 
-//@harness h_GF_call_n enforce=GreensFunction_call_n replace=GreensFunction_call_z props=C01 min_obl=100 timeout=300 reach=1
+//@harness h_GF_call_n enforce=GreensFunction_call_n replace=GreensFunction_call_z props=C01 min_obl=201 timeout=120 reach=1
 void h_GF_call_n(void) { struct GreensFunction *gf; long n; GreensFunction_call_n(gf, n); REACH("exit"); }
 
-//@harness h_GF_of_tau enforce=GreensFunction_of_tau props=C11 min_obl=300 timeout=300 reach=3
+//@harness h_GF_of_tau enforce=GreensFunction_of_tau props=C11 min_obl=393 timeout=120 reach=3
 void h_GF_of_tau(void) { struct GreensFunction *gf; double tau; GreensFunction_of_tau(gf, tau); if (g_last_eval == -1) REACH("exit_none"); else REACH("exit_some"); }
 
 /* ---- constructor: establishes the state prepare() starts from (Status = Constructed, Vanishing, no parts), beta /
@@ -401,10 +401,52 @@ __CPROVER_ensures(self->S == S && self->H.nblocks == H->nblocks && self->DM.nblo
 __CPROVER_ensures(self->C.Status == C->Status && self->C.LeftRightBlocks.left.e == C->LeftRightBlocks.left.e && self->CX.Status == CX->Status && self->CX.LeftRightBlocks.right.e == CX->LeftRightBlocks.right.e)
 //@end
 
-//@harness h_GF_ctor enforce=GreensFunction_init5 props=C01 min_obl=100 timeout=120 reach=1
+//@harness h_GF_ctor enforce=GreensFunction_init5 props=C01 min_obl=257 timeout=120 reach=1
 void h_GF_ctor(void)
 {
   struct GreensFunction *gf; struct StatesClassification *S; struct Hamiltonian *H; struct FieldOperator *C, *CX; struct DensityMatrix *DM;
   GreensFunction_init5(gf, S, H, C, CX, DM);
   REACH("exit");
 }
+
+/* =====================================================================================================================
+ * WHAT IS PROVED (for all inputs satisfying the stated type invariants), WHAT IS NOT
+ *
+ * h_GF_prepare (GreensFunction::prepare, C01 F2 + C19), bimap model stubs/bimap.h (assumptions B1-B3 there):
+ *   safety (iterators dereferenced / incremented only before end(); block numbers handed to H.getPart / DM.getPart / DM.isRetained
+ *     inside parts[]; getPartFromLeftIndex / getPartFromRightIndex called with an existing left / right block), termination;
+ *   Status >= Prepared on entry: nothing changes;  an operator that is not prepared: exStatusMismatch, nothing created;
+ *   soundness (monitor of `new GreensFunctionPart(...)`, every call): the iterators are on relations <l|c|r> of C.left and <r|c^+|l> of
+ *     CX.right; l or r is retained; arguments = (part of C with left block l, part of CX with right block l, H(r), H(l), DM(r), DM(l)),
+ *     i.e. inner = r, outer = l; the created part is what is appended to the list;
+ *   completeness + uniqueness + C19 (ghost pair = ONE arbitrary relation of C.left and ONE of CX.right): exactly one part iff the pair
+ *     matches and (retained(l) || retained(r)) -- a part is skipped only when both blocks of its stripe are discarded; no part for a
+ *     non-matching pair;  #list elements = #parts created <= #relations of C, of CX;  Vanishing <=> no part;  Status = Prepared.
+ *   retained() is an opaque oracle of the block number (DensityMatrix::isRetained, densmat.c).  Part handles are opaque.
+ * h_GF_compute (GreensFunction::compute; prepare() replaced by its contract): already computed -> nothing; not prepared -> prepare() runs
+ *   (its post-conditions hold) or throws (then nothing is computed, status unchanged); GreensFunctionPart::compute() on every list element
+ *   exactly once, in order (ghost position); Status = Computed.
+ * h_GF_call_z / h_GF_of_tau: result = MODEL sum (0, then sum := sum + part_k(arg) at every evaluation: monitor; accumulator bit-equal to the
+ *   model at every loop head); every part evaluated at the function's own argument, exactly once, in order; Vanishing -> +0 and no evaluation.
+ * h_GF_call_n (operator()(long), GreensFunction_call_z replaced by its contract): the frequency handed on is MatsubaraSpacing*(2n+1) =
+ *   (i*pi/beta)*(2n+1), |n| < 2^61 LIMIT (2n+1 in long).
+ * h_GF_ctor: Status = Constructed, Vanishing, no parts, beta / MatsubaraSpacing = I*pi/beta of DM, arguments stored in the members of the same name.
+ * NOT covered: copy constructor, destructor, getIndex, isVanishing; the value of one part is opaque here (gfterm.c / gfpart.c).
+ *
+ * ASSUMPTIONS introduced here: std::list model (push_back appends, size counts, iteration in order; handles canonical); callee stubs
+ *   DensityMatrix::isRetained/getPart, Hamiltonian::getPart, FieldOperator::getPartFromLeft/RightIndex (their pre-conditions are asserted);
+ *   ComputableObject() sets Status = Constructed; the bimap assumptions B1-B3 of stubs/bimap.h.
+ *
+ * MUTANTS (scratch copy of /repo, re-extracted; obligation that failed)
+ *   prepare: drop `|| isRetained(Cright)` / `||` -> `&&`  -> GreensFunction_prepare.loop_invariant_step.5 (ghost pair not created)
+ *            H.getPart(Cleft),H.getPart(Cright) swapped     -> GreensFunctionPart_new6.assertion.6;  DM parts swapped -> assertion.7
+ *            match test without Cright == CXleft            -> GreensFunctionPart_new6.assertion.2, loop_invariant_step.5
+ *            `<=` -> `<` in the C advance                    -> loop_invariant_step.4/.5
+ *            parts.size() > 1                                -> postcondition.6 (Vanishing <=> no part)
+ *            CX.getPartFromLeftIndex(CXleft)                 -> FieldOperator_getPartFromLeftIndex.assertion.1, GreensFunctionPart_new6.assertion.5
+ *            no early return                                 -> postcondition.1/.3/.5, PartList_push_back.assertion.1
+ *   compute: skip prepare() -> postcondition.3/.4;  Status = Prepared at the end -> postcondition.6;  no early return -> postcondition.1
+ *   call_z:  !Vanishing -> postcondition.1;  Value -= part -> loop invariant (accumulator != model)
+ *   call_n:  2n -> GreensFunction_call_z.precondition.2;   of_tau: of_tau(-tau) -> GreensFunctionPart_of_tau.assertion.3
+ *   ctor:    Vanishing(false) -> postcondition.1   (C(CX),CX(C) does not compile)
+ */
